@@ -23,6 +23,7 @@ CONFIG = {
  'C13': dict(level='proof', tags={'C13'}, owns_crash=['print'], profiles=[('print', 1200, 30000), ('any', 800, 10000)], assumptions=[A_MODEL, A_SIZE, A_LIBC]),
  'C14': dict(level='proof', tags={'C14'}, profiles=[('print', 1500, 40000)], assumptions=[A_MODEL, A_SIZE, A_LIBC]),
  'C16': dict(level='proof', tags={'C16'}, owns_crash=['timeout'], profiles=[('any', 3000, 60000), ('verify', 2000, 60000), ('stream', 1500, 40000)], assumptions=[A_MODEL, A_SIZE]),
+ 'C15': dict(level='proof', tags={'C15'}, profiles=[('cpp-trees', 0, 0), ('cpp-bytes', 0, 0)], special='c15', assumptions=[A_MODEL, A_SIZE, 'std::map orders std::string keys as unsigned bytes; std::string/std::vector have value semantics', 'crashes, uninitialised reads and the exception machinery are runtime behaviour outside the Lean model: decided by the ASan+UBSan harness with a poisoned stack (partial)']),
  'C17': dict(level='proof', tags=set(), profiles=[], special='c17'),
  'C18': dict(level='translation_validation', tags=set(), profiles=[], special='c18'),
 }
